@@ -895,7 +895,7 @@ int main(int argc, char** argv)
     {
         std::map<std::string, std::vector<int64_t>> crash_classes;
         std::map<std::string, std::string> crash_text;
-        for (size_t ci = 0; ci < crashed_runs.size() && ci < 48; ++ci)
+        for (size_t ci = 0; ci < crashed_runs.size() && ci < 160; ++ci)
         {
             RunRec& rr = B.recs[size_t(crashed_runs[ci])];
             Script s = generate_script(prop, rr.seed, tier);
